@@ -547,9 +547,7 @@ public:
   void rename(const variable_vector_t &from,
               const variable_vector_t &to) override {
     if (!is_bottom()) {
-      for (std::shared_ptr<base_domain_t> absval : m_packs.domains()) {
-        absval->rename(from, to);
-      }
+      // renames the variables in the packs and in their abstract values
       m_packs.rename(from, to);
     }
   }
